@@ -129,6 +129,14 @@ def direct_script(kind, subset):
             await c.start()
             for _ in range(3):
                 await call(c, "consume", "pos")
+            # operations that fail or get cancelled must not silence the ones that follow
+            await call(b, "enqueue", "pos", w.key("lost", "job", "undeclared", 9), "x", w.params())
+            out["expected"].append(("before_consume", {}))
+            try:
+                await asyncio.wait_for(c.consume(), 0.05)  # nothing left: cancelled by the timeout
+                out["results"].append(("consume", "ok", "unexpected"))
+            except asyncio.TimeoutError:
+                out["results"].append(("consume", "cancelled", None))
             await call(b, "ack", "pos", k[0])
             await call(b, "nack", "kw", k[1])
             await call(b, "requeue", "mixed", k[2], "p2b", w.params(tried=1))
